@@ -1029,7 +1029,49 @@ func TestVerifIDLStandin(t *testing.T) {
 			fmt.Fprintf(os.Stdout, "VERIF-STANDIN-FAIL %%q took %%v\n", c, el)
 		}
 	}
-	fmt.Fprintf(os.Stdout, "VERIF-STANDIN-OK cases=%%d\n", len(cases))
+	// size sweep: one declaration with n members; the time for 16 times more members must stay within
+	// a generous linear budget (400 ms + 40 x the time for n), minimum of three tries each
+	sized := func(kind string, n int) string {
+		var b strings.Builder
+		b.WriteString("package p\n" + kind + " Big\n")
+		for i := 0; i < n; i++ {
+			if kind == "struct" {
+				fmt.Fprintf(&b, "\tmember%%d: int32\n", i)
+			} else {
+				fmt.Fprintf(&b, "\tconst value%%d = %%d\n", i, i)
+			}
+		}
+		b.WriteString("end\n")
+		return b.String()
+	}
+	timeOf := func(text string) time.Duration {
+		best := time.Duration(1 << 62)
+		for try := 0; try < 3; try++ {
+			t0 := time.Now()
+			func() {
+				defer func() {
+					if p := recover(); p != nil {
+						fmt.Fprintf(os.Stdout, "VERIF-STANDIN-FAIL panic on a %%d byte declaration: %%v\n", len(text), p)
+					}
+				}()
+				ParseIDL(strings.NewReader(text))
+			}()
+			if el := time.Since(t0); el < best {
+				best = el
+			}
+		}
+		return best
+	}
+	for _, kind := range []string{"struct", "enum"} {
+		small, large := 2000, 32000
+		fmt.Fprintf(os.Stdout, "VERIF-STANDIN-CASE size sweep %%s %%d/%%d members\n", kind, small, large)
+		ts := timeOf(sized(kind, small))
+		tl := timeOf(sized(kind, large))
+		if tl > 400*time.Millisecond+40*ts {
+			fmt.Fprintf(os.Stdout, "VERIF-STANDIN-FAIL one %%s with %%d members took %%v, with %%d members %%v (budget 400ms + 40x): super-linear\n", kind, small, ts, large, tl)
+		}
+	}
+	fmt.Fprintf(os.Stdout, "VERIF-STANDIN-OK cases=%%d\n", len(cases)+4)
 }
 `
 
@@ -1052,7 +1094,7 @@ func runBoundedStandins(prop, tier, repo, verif string, seed int, violate func(s
 			"bounded/meta/signature.Parse"},
 		{"bounded_idl.ParseIDL", filepath.Join("meta", "idl"), fmt.Sprintf(idlStandinTest, maxDepth), "TestVerifIDLStandin",
 			"meta/idl.ParseIDL (goparsec combinator tree plus type resolution, outside the verifier's reach)",
-			fmt.Sprintf("4 well-formed IDL texts (interfaces, structs, enums, containers) and each of them with one line deleted, one line duplicated, or cut after any line, and with every identifier-like token given one of 8 odd suffixes / 5 odd prefixes or replaced by one of 12 punctuation / keyword tokens; 8 texts whose type references do not resolve to a finite type (self / mutual / longer cycles, cycles through a container, unknown names, a struct named like a basic type, an interface used as a type); container nestings of depth 1..%d, closed and unclosed: each must return a package or an error without panic or fatal error within 2 s, and a returned package must be printable", maxDepth),
+			fmt.Sprintf("4 well-formed IDL texts (interfaces, structs, enums, containers) and each of them with one line deleted, one line duplicated, or cut after any line, and with every identifier-like token given one of 8 odd suffixes / 5 odd prefixes or replaced by one of 12 punctuation / keyword tokens; 8 texts whose type references do not resolve to a finite type (self / mutual / longer cycles, cycles through a container, unknown names, a struct named like a basic type, an interface used as a type); container nestings of depth 1..%d, closed and unclosed: each must return a package or an error without panic or fatal error within 2 s, and a returned package must be printable; size sweep: one struct / one enum with 2000 and with 32000 members, the larger within 400 ms + 40 x the time of the smaller", maxDepth),
 			"bounded/meta/idl.ParseIDL"},
 	}
 	var all []interface{}
